@@ -100,6 +100,8 @@ type State struct {
 	timerByPtr  map[*Value]*Timer
 	ptrIDs      map[interface{}]uint64
 	lenientFmt  int
+	jsonSyms    []jsonSym
+	jsonDecoders map[*Value]*[]byte
 	hashGlobals []*ssa.Global
 	startThread func(t *Thread, body func())
 }
@@ -536,7 +538,7 @@ func (eng *Engine) runPath(ps *PathSolver, entry *ssa.Function, prefix []Dec, co
 		finished: make(chan struct{}), syncObjs: map[*Value]*syncObj{},
 		now:      1_000_000_000_000, concrete: concrete,
 		accessLog: map[interface{}]*accessInfo{}, timerByPtr: map[*Value]*Timer{},
-		hashGlobals: eng.hashGlobals,
+		hashGlobals: eng.hashGlobals, jsonDecoders: map[*Value]*[]byte{},
 	}
 	ps.beginPath()
 	res = &PathResult{}
